@@ -28,13 +28,13 @@ from cassandra.cqlengine.models import Model        # noqa: E402
 META = dict(
     level='model_checking',
     level_text='every operation sequence within the bound (solver-forked choice of operations and of which fields they touch) runs through the real cqlengine code with symbolic column values; each emitted statement is executed by an independent interpreter of Cassandra\'s DML semantics and z3 proves per path that the stored row equals the model state for every value',
-    level_note='one model (int key; int, text, list<int>, set<int>, map<int,int> columns) and one counter model; sequences of at most 3 operations; set elements and map keys from a small range (they are hashed), other values symbolic; the interpreter covers exactly the statement forms cqlengine emits and is hand-written from the CQL documentation; conditional (IF) statements, TTL/timestamps, static columns and batches are outside',
+    level_note='one model (int key; int, text, list<int>, set<int>, map<int,int> columns), one counter model, one model with a clustering key and a static column; sequences of at most 3 operations; set elements and map keys from a small range (they are hashed), other values symbolic; the interpreter covers exactly the statement forms cqlengine emits and is hand-written from the CQL documentation; conditional (IF) statements and TTL/timestamps are outside',
     technique='symbolic execution (sx proxies over the real cassandra.cqlengine Model/DMLQuery/ModelQuerySet/statement classes) of solver-enumerated operation sequences + an independent CQL DML interpreter as oracle + z3 validity queries per path',
     bounds=dict(quick='<= 3 operations from {create, change+save, update(**kw), queryset update (assign / None / list append, prepend / set add, remove / map update), delete}; lists of <= 2 symbolic ints, sets and map keys over 0..3, values 32-bit symbolic',
                 thorough='<= 4 operations'),
     assumptions=['Cassandra semantics as implemented by the interpreter in this file: null == empty collection; UPDATE upserts; list + prepends/appends in the order given; set +/-; map + puts; DELETE of columns / map entries / the row'],
     stubs=['cassandra.cqlengine.connection.execute / get_cluster: the interpreter / a recorder'],
-    outside=['conditional statements (IF / IF EXISTS / IF NOT EXISTS)', 'TTL and timestamps', 'static columns and clustering keys', 'batches (the statement half is C37)', 'UDT and tuple columns'],
+    outside=['conditional statements (IF / IF EXISTS / IF NOT EXISTS)', 'TTL and timestamps',  'UDT and tuple columns'],
 )
 
 
@@ -99,6 +99,12 @@ class Store(object):
         self.rows = [(k, r) for k, r in self.rows if not sx.conc_bool(k == key)]
 
     def execute(self, cql, params):
+        if cql.startswith('BEGIN '):
+            lines = cql.split('\n')
+            assert lines[-1] == 'APPLY BATCH;' and lines[0].rstrip().endswith('BATCH'), cql
+            for line in lines[1:-1]:
+                self.execute(line.strip(), params)
+            return
         self.log.append(cql)
         params = dict((k, plain(v)) for k, v in params.items())
         P = lambda i: params[i]
@@ -213,7 +219,7 @@ FIELDS = ['a', 't', 'l', 's', 'm']
 
 def install(store):
     saved = (cq.conn.execute, cq.conn.get_cluster)
-    cq.conn.execute = lambda stmt, params, *a, **k: store.execute(stmt.query_string, params) or []
+    cq.conn.execute = lambda stmt, params, *a, **k: store.execute(stmt if isinstance(stmt, str) else stmt.query_string, params) or []
     cq.conn.get_cluster = lambda connection=None: types.SimpleNamespace(protocol_version=4)
     return saved
 
@@ -397,6 +403,193 @@ def h_counter(V):
         cq.conn.execute, cq.conn.get_cluster = saved
 
 
+class Part(Model):
+    __keyspace__ = 'ks'
+    __table_name__ = 'part'
+    pk = cols.Integer(partition_key=True)
+    ck = cols.Integer(primary_key=True)
+    st = cols.Integer(static=True)
+    v = cols.Integer()
+
+
+class PStore(object):
+    """a table with partition key pk, clustering key ck, static column st and regular column v"""
+
+    def __init__(self):
+        self.parts = []       # [(pk, {'st': value, 'rows': [(ck, {'v': value})]})]
+        self.log = []
+
+    def part(self, pk, create=False):
+        for k, p in self.parts:
+            if sx.conc_bool(k == pk):
+                return p
+        if create:
+            p = {'st': None, 'rows': []}
+            self.parts.append((pk, p))
+            return p
+        return None
+
+    def row(self, p, ck, create=False):
+        for k, r in p['rows']:
+            if sx.conc_bool(k == ck):
+                return r
+        if create:
+            r = {'v': None}
+            p['rows'].append((ck, r))
+            return r
+        return None
+
+    def execute(self, cql, params):
+        self.log.append(cql)
+        params = dict((k, plain(v)) for k, v in params.items())
+        P = lambda i: params[i]
+
+        def where(text):
+            d = {}
+            for cond in text.split(' AND '):
+                m = re.fullmatch(r'"(\w+)" = %s' % PH, cond)
+                assert m, 'WHERE form not covered: %s' % cond
+                d[m.group(1)] = P(m.group(2))
+            return d
+        m = re.fullmatch(r'INSERT INTO (\S+) \((.*?)\) VALUES \((.*)\)', cql)
+        if m:
+            names = [c.strip('"') for c in m.group(2).split(', ')]
+            vals = [P(re.fullmatch(PH, x).group(1)) for x in m.group(3).split(', ')]
+            d = dict(zip(names, vals))
+            p = self.part(d['pk'], create=True)
+            if 'st' in d:
+                p['st'] = d['st']
+            if 'ck' in d:
+                r = self.row(p, d['ck'], create=True)
+                if 'v' in d:
+                    r['v'] = d['v']
+            else:
+                assert 'v' not in d, 'regular column without its clustering key: %s' % cql
+            return
+        m = re.fullmatch(r'UPDATE (\S+) SET (.*?) WHERE (.*)', cql)
+        if m:
+            w = where(m.group(3))
+            p = self.part(w['pk'], create=True)
+            for frag in m.group(2).split(', '):
+                mm = re.fullmatch(r'"(\w+)" = %s' % PH, frag)
+                assert mm, 'assignment form not covered: %s' % frag
+                if mm.group(1) == 'st':
+                    p['st'] = P(mm.group(2))
+                else:
+                    assert 'ck' in w, 'regular column updated without its clustering key: %s' % cql
+                    self.row(p, w['ck'], create=True)[mm.group(1)] = P(mm.group(2))
+            return
+        m = re.fullmatch(r'DELETE(.*?) FROM (\S+) WHERE (.*)', cql)
+        if m:
+            w = where(m.group(3))
+            p = self.part(w['pk'])
+            if p is None:
+                return
+            what = [x.strip('"') for x in m.group(1).strip().split(', ')] if m.group(1).strip() else []
+            if not what:
+                if 'ck' in w:
+                    p['rows'] = [(k, r) for k, r in p['rows'] if not sx.conc_bool(k == w['ck'])]
+                else:
+                    p['rows'] = []
+                    p['st'] = None
+                return
+            # Cassandra: "Invalid restrictions on clustering columns since the DELETE statement modifies only static columns"
+            assert not (set(what) <= {'st'} and 'ck' in w), 'Cassandra rejects a static-only DELETE restricted by a clustering key: %s' % cql
+            for c in what:
+                if c == 'st':
+                    p['st'] = None
+                else:
+                    assert 'ck' in w, 'regular column deleted without its clustering key: %s' % cql
+                    r = self.row(p, w['ck'])
+                    if r is not None:
+                        r[c] = None
+            return
+        raise AssertionError('statement form not covered by the interpreter: %s' % cql)
+
+
+def h_static(V):
+    """a table with a clustering key and a static column: two rows of one partition share the static value"""
+    store = PStore()
+    saved = (cq.conn.execute, cq.conn.get_cluster)
+    cq.conn.execute = lambda stmt, params, *a, **k: store.execute(stmt if isinstance(stmt, str) else stmt.query_string, params) or []
+    cq.conn.get_cluster = lambda connection=None: types.SimpleNamespace(protocol_version=4)
+    try:
+        PK = V.int('pk', 0, 1000)
+        c1, c2 = V.int('ck1', 0, 10), V.int('ck2', 11, 20)
+        s0, v1, v2, x = fresh(V, 's0'), fresh(V, 'v1'), fresh(V, 'v2'), fresh(V, 'x')
+        r1 = Part.create(pk=PK, ck=c1, st=s0, v=v1)
+        r2 = Part.create(pk=PK, ck=c2, v=v2)
+        exp = {'st': s0, 'v1': v1, 'v2': v2}
+        op = V.pick('op', ['st=new via row1', 'st=None via row1', 'v=new on row2', 'v=None on row2', 'static-only instance', 'delete row1', 'update(st) on row2'])
+        if op == 'st=new via row1':
+            r1.st = x
+            r1.save()
+            exp['st'] = x
+        elif op == 'st=None via row1':
+            r1.st = None
+            r1.save()
+            exp['st'] = None
+        elif op == 'v=new on row2':
+            r2.v = x
+            r2.save()
+            exp['v2'] = x
+        elif op == 'v=None on row2':
+            r2.v = None
+            r2.save()
+            exp['v2'] = None
+        elif op == 'static-only instance':
+            Part.create(pk=PK, st=x)           # no clustering key: only the static column is written
+            exp['st'] = x
+        elif op == 'delete row1':
+            r1.delete()
+            exp['v1'] = 'gone'
+        else:
+            r2.update(st=x)
+            exp['st'] = x
+        V.tag('op', op)
+        p = store.part(PK)
+        V.check(p is not None, 'static:partition-exists')
+        V.check(veq(p['st'], exp['st']), 'static:static-column-equals-the-model-value', note='%s: %r' % (op, store.log[-2:]))
+        for ck, key in ((c1, 'v1'), (c2, 'v2')):
+            r = store.row(p, ck)
+            if exp[key] == 'gone':
+                V.check(r is None, 'static:deleted-row-gone', note=op)
+            else:
+                V.check(r is not None and veq(r.get('v'), exp[key]), 'static:regular-column-of-each-row-equals-its-model-value', note='%s: %r' % (op, store.log[-2:]))
+    finally:
+        cq.conn.execute, cq.conn.get_cluster = saved
+
+
+def h_batch(V):
+    """several model operations collected in one BatchQuery and sent as one BEGIN BATCH ... APPLY BATCH statement"""
+    store = Store(V)
+    saved = install(store)
+    try:
+        K1, K2 = V.int('key1', 0, 1000), V.int('key2', 1001, 2000)
+        a1, a2, x = fresh(V, 'a1'), fresh(V, 'a2'), fresh(V, 'x')
+        inst2 = Doc.create(id=K2, a=a2, l=[fresh(V, 'l0')])
+        second = V.pick('second_op', ['update-a', 'append', 'delete', 'null-a'])
+        b = cq.BatchQuery()
+        inst1 = Doc.batch(b).create(id=K1, a=a1, s={1})
+        if second == 'update-a':
+            inst2.batch(b).update(a=x)
+        elif second == 'append':
+            inst2.l = list(inst2.l) + [x]
+            inst2.batch(b).save()
+        elif second == 'null-a':
+            inst2.a = None
+            inst2.batch(b).save()
+        else:
+            inst2.batch(b).delete()
+        V.check(store._find(K1) is None, 'batch:nothing-sent-before-execute')
+        b.execute()
+        V.tag('second', second)
+        row_matches(V, store, K1, inst_values(inst1), 'batch-create', 'create in batch')
+        row_matches(V, store, K2, None if second == 'delete' else inst_values(inst2), 'batch-second', second)
+    finally:
+        cq.conn.execute, cq.conn.get_cluster = saved
+
+
 def jobs(tier):
     steps = 3 if tier == 'quick' else 4
     J = []
@@ -405,4 +598,6 @@ def jobs(tier):
     for i in range(12):
         J.append(Job('queryset/op%d' % i, 'h_queryset', {}, dict(pin={'op': i})))
     J.append(Job('counter', 'h_counter', {}))
+    J.append(Job('batch', 'h_batch', {}))
+    J.append(Job('static', 'h_static', {}))
     return J
